@@ -113,12 +113,22 @@ FitUnique(P) == Rank(P) >= 2
      f32s         non-contiguous view (every second row of a larger buffer)
      f64F         Fortran-ordered          i64s      integer view with a stride in the last axis
      atoms        AtomArray (depth 0) / AtomArrayStack (depth >= 1)
+     f32m f64u i32u   instances of ndarray SUBCLASSES: a read-only numpy.memmap (a frame of a
+                  trajectory file), a user subclass obtained with .view(Sub).  An instance of a
+                  subclass IS an ndarray ("coordinates were given"): the result is coordinates,
+                  transformed like those of a plain array.  (Masked arrays and numpy.matrix
+                  change the meaning of the arithmetic and are not coordinates; Python lists
+                  are not documented inputs.)
    Dom_Form: an integer form can only hold integer coordinates.  Values given as numerators
    over a denominator `den` (den = 2: half ticks, still exact in every float type) are
    representable in a form iff the form is not an integer one or every value is a multiple
    of den. *)
-Forms == <<"f32", "f64", "f16", "i32", "i64", "atoms", "f32s", "f64F", "i64s">>
-IntForm(f) == f \in {"i32", "i64", "i64s"}
+Forms == <<"f32", "f64", "f16", "i32", "i64", "atoms", "f32s", "f64F", "i64s", "f32m", "f64u", "i32u">>
+IntForm(f) == f \in {"i32", "i64", "i64s", "i32u"}
+SubclassForm(f) == f \in {"f32m", "f64u", "i32u"}
+\* forms that hold coordinates of a few hundred ticks with a fractional part to float32 precision
+FineForm(f) == ~IntForm(f) /\ f # "f16"
+FineForms == SelectSeq(Forms, FineForm)
 AllMultiples(models, den) == \A j \in DOMAIN models : \A k \in DOMAIN models[j] : \A i \in 1..3 : models[j][k][i] % den = 0
 Dom_Form(f, models, den) == IntForm(f) => AllMultiples(models, den)
 
@@ -129,6 +139,55 @@ AsMatrixScaled(T, den) ==
   LET A == AsMatrix(T) IN
   [i \in 1..4 |-> [j \in 1..4 |-> IF j <= 3 THEN den * A[i][j] ELSE IF i <= 3 THEN A[i][4] ELSE den]]
 ScaleModels(den, models) == [j \in DOMAIN models |-> [k \in DOMAIN models[j] |-> VScale(den, models[j][k])]]
+
+(* ------------------------------------------------------------------ motions off the lattice *)
+(* "All rigid motions": the cube group moves lattice sets onto lattice sets, but a SMALL
+   rotation has no lattice image.  Rotations with rational entries come from integer
+   quaternions q = <<a, b, c, d>>:  R(q) = I + QE(q) / QD(q)  with QD = |q|^2 and QE the integer
+   matrix below; the angle is 2 atan(|(b,c,d)| / a): a large a gives a small rotation.  A
+   structure F = C + P (P a small lattice set, C a centre that may lie far from the origin) and
+   its image  M_k = C + R(q) P_k + t + noise_k  = F_k + QE(q) P_k / QD(q) + t + noise_k  are
+   exact rationals; only the displacement numerators QE(q) P_k are formed (32-bit integers).
+
+   WITNESS LAW.  The property says "no other rigid-body placement has a lower RMSD": every
+   candidate placement is a witness.  The generator knows one: the inverse motion
+   x |-> R(q)^T (x - C - t) + C, an AffineTransformation with centre translation -(C + t),
+   rotation I + QE(q)^T / QD(q) and target translation C.  It maps the exact M_k onto
+   F_k + R^T noise_k, so its mean squared deviation over the fitted atoms A is exactly
+   Sum_{k in A} |noise_k|^2 / |A|  (a rotation preserves lengths) - 0 for an exact rigid copy.
+   The real superimpose() must not be worse, up to float32 rounding of the coordinates:
+       RMSD(fitted) <= RMSD(witness) + FarAllowUlps(|A|) * ulp,
+   ulp = the float32 spacing at the largest coordinate magnitude.  Rounding allowance: the
+   coordinates are float32 (1/2 ulp each), the centroids are float32 sums of |A| such values
+   (worst case (|A|-1)/2 ulp), rotation and translations a few more: 8 + |A| ulps (measured on
+   the unchanged code: at most 2.9 ulps for |A| <= 8).
+   InverseLaw(q) is R^T R = I written without forming QD^2:
+       (D I + E^T)(D I + E) = D^2 I   <=>   D (E + E^T) + E^T E = 0. *)
+QD(q) == q[1] * q[1] + q[2] * q[2] + q[3] * q[3] + q[4] * q[4]
+QE(q) == LET a == q[1]  b == q[2]  c == q[3]  d == q[4] IN
+  << <<-2 * (c * c + d * d), 2 * (b * c - a * d), 2 * (b * d + a * c)>>,
+     <<2 * (b * c + a * d), -2 * (b * b + d * d), 2 * (c * d - a * b)>>,
+     <<2 * (b * d - a * c), 2 * (c * d + a * b), -2 * (b * b + c * c)>> >>
+ZeroMat == <<Zero3, Zero3, Zero3>>
+InverseLaw(q) == LET E == QE(q) IN
+  MatAdd(MatScale(QD(q), MatAdd(E, Transpose(E))), MatMul(Transpose(E), E)) = ZeroMat
+\* D R(q) as an integer matrix (small q only: entries of size |q|^2)
+QRotScaled(q) == MatAdd(MatScale(QD(q), Id3), QE(q))
+\* the generating motion's inverse as an AffineTransformation with rational entries:
+\* centre translation ct[1..3] / ct[4], rotation I + Et / D, target translation C
+FarWitness(q, C, t) ==
+  [ct |-> <<-(C[1] * t[4] + t[1]), -(C[2] * t[4] + t[2]), -(C[3] * t[4] + t[3]), t[4]>>,
+   Et |-> Transpose(QE(q)), D |-> QD(q), C |-> C]
+\* exact mean squared deviation of the witness placement: noise nz = <<x, y, z, den>> on atom 1
+FarWitnessMsd(nz, A) ==
+  IF 1 \in A THEN <<nz[1] * nz[1] + nz[2] * nz[2] + nz[3] * nz[3], nz[4] * nz[4] * Cardinality(A)>>
+  ELSE <<0, Cardinality(A)>>
+FarAllowUlps(n) == 8 + n
+\* measured RMSDs are logged in units of 1/UlpUnits ulp (floor)
+UlpUnits == 16
+FarBelow(qfit, qwit, n) == qfit <= qwit + 1 + UlpUnits * FarAllowUlps(n)
+\* the exponent e with 2^e <= m < 2^(e+1): the float32 spacing at magnitude m is 2^(e-23)
+UlpExp(m) == CHOOSE e \in 0..29 : 2 ^ e <= m /\ m < 2 ^ (e + 1)
 
 (* ------------------------------------------------------------------ histories on one object *)
 (* An AffineTransformation is an object with the attributes center_translation, rotation,
